@@ -915,6 +915,71 @@ fn gen_float(rng: &mut Rng, hist: &mut Hist) -> String {
     format!("{}{}{}", mant, es, rng.pick(FLOAT_SUFFIX))
 }
 
+/// Dense family around the limits of "fast path" conversions (Clinger): 15/16/17 significant digits, digit strings
+/// just above / below 2^53 and 2^24 * 10^k, odd last digits, decimal scales in [-25, 25], the whole/fraction split at
+/// every position. A conversion that folds the digits into an integer, converts it to a float and multiplies or
+/// divides by a power of ten is exact only up to 2^53 (15 digits always fit, 16 do not) and |scale| <= 22.
+fn gen_fastpath(rng: &mut Rng, hist: &mut Hist) -> String {
+    const P53: u128 = 1 << 53;
+    const E15: u128 = 1_000_000_000_000_000;
+    const E16: u128 = 10 * E15;
+    let d: u128 = match rng.below(10) {
+        0..=2 => {
+            hist.add("fast.odd_above_2^53");
+            // odd 16-digit values in (2^53, 10^16)
+            P53 + 1 + 2 * (rng.below(((E16 - P53) / 2 - 1) as u64) as u128)
+        }
+        3 => {
+            hist.add("fast.near_2^53");
+            P53 + 40 - rng.below(81) as u128
+        }
+        4 => {
+            hist.add("fast.random16");
+            (E15 + rng.below((E16 - E15) as u64) as u128) | if rng.chance(3, 4) { 1 } else { 0 }
+        }
+        5 => {
+            hist.add("fast.random17");
+            (E16 + rng.below((9 * E16) as u64) as u128) | if rng.chance(1, 2) { 1 } else { 0 }
+        }
+        6 => {
+            hist.add("fast.random15");
+            (E15 / 10 + rng.below((E15 - E15 / 10) as u64) as u128) | 1
+        }
+        7 => {
+            hist.add("fast.near_2^24*10^k");
+            let k = rng.range(7, 9) as u32;
+            (16_777_216u128 * 10u128.pow(k) + 100 - rng.below(201) as u128) | if rng.chance(1, 2) { 1 } else { 0 }
+        }
+        8 => {
+            hist.add("fast.below_10^16");
+            E16 - 1 - 2 * rng.below(2000) as u128
+        }
+        _ => {
+            hist.add("fast.near_10^15");
+            E15 + 50 - rng.below(101) as u128
+        }
+    };
+    let digits = format!("{}", d);
+    let n = digits.len() as i64;
+    let scale = rng.range(-25, 25);
+    hist.add(&format!("fast.digits{}", n));
+    hist.add(if scale == 0 { "fast.scale0" } else if scale.abs() <= 22 { "fast.scale<=22" } else { "fast.scale>22" });
+    let p = rng.range(1, n);
+    let (left, right) = digits.split_at(p as usize);
+    let exponent = scale + right.len() as i64;
+    let dot = !right.is_empty() || rng.chance(1, 2);
+    let mant = if dot { format!("{}.{}", left, right) } else { left.to_string() };
+    let es = if exponent == 0 && dot && rng.chance(2, 3) {
+        String::new()
+    } else {
+        let letter = if rng.chance(1, 2) { "e" } else { "E" };
+        let sign = if exponent < 0 { "-" } else if rng.chance(1, 3) { "+" } else { "" };
+        format!("{}{}{}", letter, sign, exponent.unsigned_abs())
+    };
+    let sfx = *rng.pick(&["", "", "", "L", "l", "f", "h"][..]);
+    format!("{}{}{}", mant, es, sfx)
+}
+
 /// digits and exponent of the exact midpoint between bit patterns b and b+1 of the format, optionally nudged in
 /// the last written digit or truncated to 20 significant digits
 fn halfway_decimal(b: u64, f: Fmt, rng: &mut Rng, hist: &mut Hist) -> (String, i64) {
@@ -1006,7 +1071,14 @@ fn gen_item(rng: &mut Rng, hist: &mut Hist) -> String {
         0 | 1 => rng.pick(WORDS).to_string(),
         2 | 3 => rng.pick(IDENTS).to_string(),
         4 | 5 => gen_int(rng, hist),
-        6 | 7 => gen_float(rng, hist),
+        6 => gen_float(rng, hist),
+        7 => {
+            if rng.chance(1, 3) {
+                gen_fastpath(rng, hist)
+            } else {
+                gen_float(rng, hist)
+            }
+        }
         8..=10 => rng.pick(OPS).to_string(),
         11..=14 => rng.pick(TRIVIA).to_string(),
         15 => rng.pick(STRINGS).to_string(),
@@ -1219,6 +1291,17 @@ fn run_inner(args: &Args, out: &mut Out) {
             s.push_str(*rng.pick(&[";", " ", "\n", ")", "+1", ",", "\r\n", ".x", "//"][..]));
         }
         emit(&s, &Flags { trail: rng.chance(1, 2), inc: false, base: 0 }, out, &mut hist);
+        texts += 1;
+    }
+    // (3b) the fast-path boundary family (dense: a digit-count or scale off-by-one must be hit in the quick tier)
+    let n_fast = if args.thorough() { 200_000 } else { 8_000 };
+    let n_fast = args.n.map(|n| n / 2).unwrap_or(n_fast);
+    for _ in 0..n_fast {
+        let mut s = gen_fastpath(&mut rng, &mut hist);
+        if rng.chance(1, 3) {
+            s.push_str(*rng.pick(&[";", " ", "\n", ")", ","][..]));
+        }
+        emit(&s, &Flags { trail: true, inc: false, base: 0 }, out, &mut hist);
         texts += 1;
     }
     // (4) literals through the whole compiler: the value must appear unchanged in the emitted HLSL
